@@ -95,6 +95,19 @@ Theorem C43_peek_is_best : forall pend bf st,
 Proof. exact peek_is_best. Qed.
 Print Assumptions C43_peek_is_best.
 
+(* [avail] spelled out: an item is available after [tr] iff its account was never
+   popped and it is the first not-yet-yielded transaction of the account's affordable
+   prefix (so [avail] is the complete set of current heads, not a subset) *)
+Theorem C43_avail_char : forall pend bf st script tr st',
+  NoDup (map fst pend) -> new_by_price_and_nonce pend bf = Ok st ->
+  run st script = Ok (tr, st') ->
+  forall it, In it (avail bf pend tr) <->
+    (it_fee it = eff_fee bf (it_tx it) /\ no_pop (it_from it) tr /\
+     exists s, afford_prefix bf (txs_of (it_from it) pend) =
+               proj (it_from it) tr ++ it_tx it :: s).
+Proof. exact avail_char. Qed.
+Print Assumptions C43_avail_char.
+
 Theorem C43_peek_final_is_best : forall pend bf st,
   NoDup (map fst pend) -> new_by_price_and_nonce pend bf = Ok st ->
   forall script tr st', run st script = Ok (tr, st') ->
